@@ -370,3 +370,33 @@ Proof.
   - apply N.ltb_lt in H. apply andb_false_iff. right. apply N.leb_gt. exact H.
   - apply N.ltb_lt in H. apply andb_false_iff. right. apply N.leb_gt. exact H.
 Qed.
+
+(* ------------------------------------------------------------------ special attribute / element lookups, positional CSS *)
+Lemma special_attrs_ignore_foreign p : In p special_attr_lookups -> lookup_finds (snd p) ANS_Foreign = false.
+Proof. unfold special_attr_lookups. cbn [In]. intros H. repeat (destruct H as [H|H]; [subst p; reflexivity|]). contradiction. Qed.
+
+Lemma special_attrs_complete : map fst special_attr_lookups = [SA_Style; SA_Id; SA_Class].
+Proof. reflexivity. Qed.
+
+(* resolve_css collects only `style` elements of the SVG namespace (7457fef) *)
+Lemma style_element_ignores_foreign : lookup_finds style_element_lookup ANS_Foreign = false /\ lookup_finds style_element_lookup ANS_None = false.
+Proof. split; reflexivity. Qed.
+Lemma style_element_finds_svg : lookup_finds style_element_lookup ANS_Svg = true.
+Proof. reflexivity. Qed.
+
+Lemma sibling_elements_app a b : sibling_elements (xapp a b) = sibling_elements a ++ sibling_elements b.
+Proof.
+  induction a as [|x r IH] using xnodes_rect_simple; [reflexivity|].
+  cbn [xapp sibling_elements]. destruct (x_is_element x); cbn; rewrite IH; reflexivity.
+Qed.
+Lemma sibling_elements_junk junk : all_non_element junk = true -> sibling_elements junk = [].
+Proof.
+  induction junk as [|x r IH] using xnodes_rect_simple; [reflexivity|].
+  cbn. intros H. apply andb_prop in H. destruct H as [Hx Hr]. apply negb_true_iff in Hx. rewrite Hx. apply IH, Hr.
+Qed.
+Theorem sibling_elements_stable l1 junk l2 :
+  all_non_element junk = true -> sibling_elements (xapp l1 (xapp junk l2)) = sibling_elements (xapp l1 l2).
+Proof. intros H. rewrite !sibling_elements_app, (sibling_elements_junk junk H). reflexivity. Qed.
+
+Lemma css_facts_lock : css_facts = [CF_ParentElement; CF_PrevSiblingElement; CF_FirstChildViaPrevSibling; CF_AttrMatchNoNamespace].
+Proof. reflexivity. Qed.
